@@ -59,9 +59,9 @@ def mutate(src, cand, rng):
         pat, rep = OPS[oi]
         tok = line[a:b]
         if rep is None:
-            v = int(tok, 0)
+            v = int(tok, 8) if re.fullmatch(r'0[0-7]+', tok) else int(tok, 0)
             nv = rng.choice([v + 1, max(0, v - 1), v * 2, v // 2]) if v > 1 else rng.choice([v + 1, 2])
-            rep = ("0x%x" % nv) if tok.lower().startswith("0x") else str(nv)
+            rep = ("0x%x" % nv) if tok.lower().startswith("0x") else ("0%o" % nv) if re.fullmatch(r'0[0-7]+', tok) else str(nv)
         new = line[:a] + rep + line[b:]
         desc = "%s -> %s" % (tok, rep or "(nothing)")
     if new == line:
